@@ -74,10 +74,27 @@ def one_case(ctx, lmplz, dexe, case, wd, flags, tag="c", spec_mode=False):
     if fb_ref != tfb and not L.near_discount_boundary(ref["stats"]):
         out.append(("oracle", "discounts", "fallback substituted for orders %s by the tool, %s by the definition" % (sorted(tfb), sorted(fb_ref))))
     if not dp and fb_ref == tfb:
-        mp, worst = L.compare_model(tg, case["order"], ref["grams"], "definition")
+        mp, worst = L.compare_model(tg, case["order"], ref["grams"], "definition", errs=ref["errs"])
         ctx.notes["worst_log10_dev"] = max(ctx.notes.get("worst_log10_dev", 0.0), worst)
         for p in mp[:6]:
             out.append(("oracle", "values", p))
+    # ---- the same case under a tiny-memory configuration: several counting blocks (context carried across
+    #      block boundaries, per-block dedupe), hash-table growth, spills and multi-pass merges.  The ARPA must be
+    #      the same bytes, i.e. "exactly the n-grams of the sentences" also holds under block boundaries.
+    ntok = case["corpus"].count(b" ") + case["corpus"].count(b"\n")
+    mem2 = "1K" if ntok < 60 else ("4K" if ntok < 3000 else "256K")
+    tiny = ["--vocab_estimate", "20", "--minimum_block", "32b", "--sort_block", "256b" if ntok < 3000 else "4K",
+            "--block_count", str(2 + (ntok % 3))]
+    t2 = L.run_lmplz(lmplz, case, wd, tag + "m", mem=mem2, extra=tiny, timeout=300)
+    ctx.hist("tiny.class", t2["cls"])
+    if t2["cls"] == "ok":
+        if t2["arpa"] != t["arpa"]:
+            h2, tg2, _ = L.parse_arpa(t2["arpa"])
+            mp2, _ = L.compare_model(tg2, case["order"], ref["grams"], "definition", errs=ref["errs"])
+            out.append(("oracle", "blocks", "with -S %s %s the ARPA differs from the -S 64M run%s" % (
+                mem2, " ".join(tiny), (": " + mp2[0]) if mp2 else " (bytes only)")))
+    elif t2["cls"] != "config":
+        out.append(("oracle", "blocks", "with -S %s %s lmplz fails (%s) where the -S 64M run succeeds" % (mem2, " ".join(tiny), t2["cls"])))
     # ---- correspondence: the streaming model with the tree's flags
     d = L.run_driver(dexe, case, wd, tag, "stream", *flags)
     if d["cls"] != "ok":
@@ -91,7 +108,7 @@ def one_case(ctx, lmplz, dexe, case, wd, flags, tag="c", spec_mode=False):
         for p in cp:
             out.append(("corr", "discounts", "model: " + p))
         if not cp:
-            mp, worst = L.compare_model(tg, case["order"], d["grams"], "streaming model")
+            mp, worst = L.compare_model(tg, case["order"], d["grams"], "streaming model", errs=ref.get("errs"))
             for p in mp[:6]:
                 out.append(("corr", "values", p))
         for n in range(1, case["order"] + 1):
@@ -109,7 +126,7 @@ def one_case(ctx, lmplz, dexe, case, wd, flags, tag="c", spec_mode=False):
                             "table of an accepted corpus"))
             ok_d = not L.compare_discounts(tstats, sp["discs"])
             if ok_d:
-                mp, _ = L.compare_model(tg, case["order"], sp["grams"], "Lean spec")
+                mp, _ = L.compare_model(tg, case["order"], sp["grams"], "Lean spec", errs=ref.get("errs"))
                 for p in mp[:4]:
                     out.append(("oracle", "values", p))
             else:
@@ -190,6 +207,22 @@ def run(ctx):
         else:
             plan = [("witness", 1), ("small", 800), ("mid", 2400), ("big", 30)]
         reported = set()
+        # minimised past failures / false alarms first (corpus/C05/*.json, replay format)
+        import glob, json
+        from vlib.common import VERIF
+        for fn in sorted(glob.glob(os.path.join(VERIF, "corpus", "C05", "*.json"))):
+            o = json.load(open(fn))
+            fbk = o.get("discount_fallback")
+            case = dict(corpus=o["corpus"].encode("latin-1"), order=o["order"], prune=o.get("prune"),
+                        limit=None if o.get("limit_vocab") is None else o["limit_vocab"].encode("latin-1"),
+                        interp=o.get("interpolate_unigrams", True), fallback=tuple(fbk) if isinstance(fbk, list) else fbk,
+                        renumber=o.get("renumber", False), skip=o.get("skip_symbols", False), tail=True,
+                        label="corpus/" + os.path.basename(fn))
+            f = one_case(ctx, lmplz, dexe, case, wd, flags, spec_mode=len(case["corpus"]) < 400)
+            ctx.count(("regression", fn), nontrivial=True)
+            if f:
+                ctx.violation("regression input %s: %s" % (os.path.basename(fn), f[0][2][:300]), replay_obj(case, lmplz, f))
+                found = True
         for kind, cnt in plan:
             for i in range(cnt):
                 if kind == "witness":
@@ -238,4 +271,5 @@ def run(ctx):
                         "newline-terminated corpus (the property's domain)",
                         "cases whose closed-form discount is within 1e-5 of its admissible range boundary are skipped "
                         "(float comparison in the tool)"]
+    ctx.notes["max_dev_over_tol"] = L.STATS["max_dev_over_tol"]
     flow.report_obligation_failures(ctx, problems, found)
